@@ -198,6 +198,27 @@ func checkC10(c *Ctx) {
 			w.Sample(map[string]interface{}{"b": q(string(b)), "escaped(bnl)": q(string(escModel(b, 0, true)))})
 		}
 	})
+	// neighbour bytes of every marker byte (bit-trick comparisons), other lead bytes, the cross
+	alphaExt := append(append([]string{}, alphaB...), "\xb8", "\xbb", "\x81", "\x7f", "\xe1", "\xe3", "\xc3", "\x97", "\xff")
+	ne := n - 1
+	ex := NewStrEnum(alphaExt, ne)
+	c.Section("C10/escape-model-ext", map[string]interface{}{"alphabet": alphaExt, "max_len": ne, "start_offsets": "all", "break_newlines": "both"}, ex.Total, func(i int, w *Worker) {
+		b := ex.Get(i, nil)
+		for sl := 0; sl <= len(b); sl++ {
+			for _, bnl := range []bool{false, true} {
+				w.Eval()
+				if d := c10EvalEscape(b, sl, bnl); d != "" {
+					w.Fail("escape-model", c10case{B: b, Q: q(string(b)), StartLoc: sl, BNL: bnl}, d)
+				}
+			}
+		}
+		w.Eval()
+		if d := c10EvalPublic(b); d != "" {
+			w.Fail("public", c10case{B: b, Q: q(string(b))}, d)
+		}
+		w.SeenB(b)
+	})
+	replayers["C10/escape-model-ext"] = replayers["C10/escape-model"]
 	c.Section("C10/public", map[string]interface{}{"alphabet": alphaB, "max_len": n, "functions": "EscapeMarkers, EscapeBytes"}, en.Total, func(i int, w *Worker) {
 		b := en.Get(i, nil)
 		w.Eval()
